@@ -8,7 +8,7 @@ EOS = "▪"
 RULE = (
     "case = (generated grammar, object kind in {Earley, rescaled Earley, IncrementalCKY, EarleyLM, rescaled EarleyLM, "
     "CKYLM, BoolCFGLM/earley, BoolCFGLM/cky}, a history of 20-60 operations (p_next / next-token weights / string weight / "
-    "chain-rule call / chart / clear_cache / a transformation or derived-object construction applied to every reachable grammar) over nested, sibling and repeated prefixes of a common string). After every "
+    "chain-rule call / chart / clear_cache / an injected fault: a cold 150-400-token query interrupted by a lowered recursion limit / a transformation or derived-object construction applied to every reachable grammar) over nested, sibling and repeated prefixes of a common string). After every "
     "query the answer of the used object is compared, as a function over the vocabulary (missing = zero, tol 1e-9), with "
     "the answer of a fresh object built from a freshly built equal grammar; before/after every operation the rules "
     "(identity and content), vocabulary, nonterminal set and start symbol of every grammar reachable from the object are "
@@ -50,7 +50,7 @@ def gates(tier):
     g = {
         "min_decided": {API_Q: 8000 * k, API_P: 8000 * k},
         "shapes": {f"kind:{kd}": 10 * k for kd in KINDS} | {"history:nontrivial": 100 * k, "op:clear_cache": 200 * k,
-                                                            "op:requery-shorter": 200 * k, "op:sibling": 200 * k, "op:transform": 100 * k},
+                                                            "op:requery-shorter": 200 * k, "op:sibling": 200 * k, "op:transform": 100 * k, "op:fault": 50 * k},
         "min_hashseeds": 2,
     }
     return g
@@ -91,6 +91,9 @@ def gen_case(rng, spec):
             ops.append(["clear"])
         elif r < 0.93:
             ops.append(["transform", rng.choice(TRANSFORMS)])
+        elif r < 0.96:
+            # a cold query on a long context that is made to fail half-way (low recursion limit)
+            ops.append(["fault", [rng.choice(V) for _ in range(rng.randint(150, 400))]])
         elif ops:
             ops.append(rng.choice(ops))
     return {"g": {k: g[k] for k in ("S", "V", "rules")}, "kind": kind, "ops": ops}
@@ -269,6 +272,24 @@ def run_case(case, ctx):
         if op[0] == "clear":
             ctx.shape["op:clear_cache"] += 1
             ok, _ = ctx.call(API_Q, c2, obj.clear_cache)
+        elif op[0] == "fault":
+            # fault injection at the interpreter level: the query is interrupted by RecursionError somewhere inside
+            # the recursive chart construction; whatever it raises is ignored, later answers are judged as usual
+            import sys
+
+            ctx.shape["op:fault"] += 1
+            old_limit = sys.getrecursionlimit()
+            depth = len(__import__("inspect").stack(0))
+            sys.setrecursionlimit(depth + 120)
+            try:
+                query(kind, obj, "next", op[1], V)
+                ctx.events["fault.query-survived"] += 1
+            except RecursionError:
+                ctx.events["fault.recursion-error-injected"] += 1
+            except Exception:  # noqa: BLE001
+                ctx.events["fault.other-exception"] += 1
+            finally:
+                sys.setrecursionlimit(old_limit)
         elif op[0] == "transform":
             # a transformation / derived-object construction applied to every reachable grammar in between queries
             ctx.shape["op:transform"] += 1
